@@ -1,5 +1,6 @@
 import NanoVerif.Proofs.ClipBox
 import NanoVerif.Proofs.VarModelMulti
+import NanoVerif.Model.ConfigValidate
 /-
 C18 — A variable colour font reproduces each master at its location (the part that is nanoemoji's own).
 What nanoemoji adds to ufo2ft's variable build: one static UFO per master, and the designspace
@@ -323,4 +324,82 @@ example : InRange [(100, 400, 900), (75, 100, 125)] [900, 75] ∧ normLoc [(100,
     ∧ normLoc [(100, 400, 900), (75, 100, 125)] [250, 100] = some [-1/2, 0] := by
   refine ⟨by simp [InRange] <;> norm_num, by decide +kernel, by decide +kernel⟩
 
+
+/-- the master `FontConfig.default()` returns — every position equal to the axis default — sits at the origin of the normalised space -/
+theorem normLoc_default : ∀ (ts : List (Q × Q × Q)), (∀ t ∈ ts, t.1 ≤ t.2.1 ∧ t.2.1 ≤ t.2.2) →
+    normLoc ts (ts.map fun t => t.2.1) = some (List.replicate ts.length 0)
+  | [], _ => rfl
+  | (lo, d, hi) :: ts, h => by
+    have h0 := h (lo, d, hi) (by simp)
+    simp only [List.map_cons, normLoc, normalize_default lo d hi h0,
+      normLoc_default ts (fun t ht => h t (List.mem_cons_of_mem _ ht)), List.length_cons, List.replicate_succ]
+
+/-- **C18.3 (any number of axes)** at the default location — every axis at its configured default, the origin after normalisation — the font gives
+the default master's value. -/
+theorem config_default_reproduced (ts : List (Q × Q × Q)) (user : List (List Q))
+    (hin : ∀ l ∈ user, InRange ts l) (hnd : user.Nodup) (ms : List Q) (hl : ms.length = user.length)
+    (i : Nat) (m : Q) (hi : ms[i]? = some m)
+    (hdef : (sortLocs (user.map fun l => (normLoc ts l).getD [])).getD i [] = List.replicate ts.length 0) :
+    valueAt (sortLocs (user.map fun l => (normLoc ts l).getD [])) ms (List.replicate ts.length 0) = m := by
+  have := config_masters_reproduced ts user hin hnd ms hl i m hi
+  simp only [hdef] at this
+  exact this
+
+
 end NanoVerif.C18
+
+namespace NanoVerif.Cfg
+
+theorem atDefault_true (position : List (String × Q)) (axes : List (String × Q)) (h : atDefault position axes = .ok true) :
+    ∀ a ∈ axes, posOf position a.1 = .ok a.2 := by
+  induction axes with
+  | nil => intro a ha; cases ha
+  | cons x xs ih =>
+    obtain ⟨tag, d⟩ := x
+    unfold atDefault at h
+    cases hp : posOf position tag with
+    | error e => rw [hp] at h; cases h
+    | ok v =>
+      rw [hp] at h
+      simp only at h
+      by_cases hv : v = d
+      · rw [if_pos hv] at h
+        intro a ha
+        rcases List.mem_cons.mp ha with rfl | ha
+        · simp only [hp, hv]
+        · exact ih h a ha
+      · rw [if_neg hv] at h; cases h
+
+/-- the master `default()` returns is at the configured default on **every** axis (and no earlier master is). -/
+theorem defaultMaster_spec (axes : List (String × Q)) (masters : List (List (String × Q))) (k i : Nat)
+    (h : defaultMaster axes masters k = .ok (some i)) :
+    ∃ m, masters[i - k]? = some m ∧ k ≤ i ∧ (∀ a ∈ axes, posOf m a.1 = .ok a.2)
+      ∧ ∀ j, j < i - k → ∀ m', masters[j]? = some m' → atDefault m' axes = .ok false := by
+  induction masters generalizing k with
+  | nil => simp [defaultMaster] at h
+  | cons m ms ih =>
+    unfold defaultMaster at h
+    cases ha : atDefault m axes with
+    | error e => rw [ha] at h; cases h
+    | ok b =>
+      rw [ha] at h
+      cases b with
+      | true =>
+        simp only [Except.ok.injEq, Option.some.injEq] at h
+        subst h
+        exact ⟨m, by simp, Nat.le_refl _, atDefault_true m axes ha, fun j hj => by omega⟩
+      | false =>
+        simp only at h
+        obtain ⟨m2, e1, e2, e3, e4⟩ := ih (k + 1) h
+        refine ⟨m2, ?_, by omega, e3, ?_⟩
+        · have : i - k = (i - (k + 1)) + 1 := by omega
+          rw [this, List.getElem?_cons_succ]; exact e1
+        · intro j hj m' hm'
+          cases j with
+          | zero => simp only [List.getElem?_cons_zero, Option.some.injEq] at hm'; subst hm'; exact ha
+          | succ j =>
+            simp only [List.getElem?_cons_succ] at hm'
+            exact e4 j (by omega) m' hm'
+
+
+end NanoVerif.Cfg
